@@ -278,10 +278,19 @@ def run(ctx):
         traces.append({"id": "b%d" % (i // per), "events": events[i:i + per]})
     cans = []
     def canary(name, pred, mut):
-        e = json.loads(json.dumps(next(e for e in events if pred(e))))
-        mut(e)
-        traces.append({"id": "canary-" + name, "events": [e]})
-        cans.append("canary-" + name)
+        # (built from the first recorded event the mutation applies to; a library that records no such event - e.g. one that
+        #  writes no options record at all - is judged by the ordinary traces, the self-test is then not applicable)
+        for src in events:
+            if not ("files" in src and len(src["files"]) == 2 and pred(src)):
+                continue
+            e = json.loads(json.dumps(src))
+            try:
+                mut(e)
+            except (StopIteration, IndexError, KeyError):
+                continue
+            traces.append({"id": "canary-" + name, "events": [e]})
+            cans.append("canary-" + name)
+            return
     def optchunk(e, k):
         return next(c for c in e["files"][k]["chunks"] if c[0] == spec[e["t"]]["options_chnm"])
     canary("record-bit", lambda e: e["t"] == "MultiSynth", lambda e: optchunk(e, 0)[1].__setitem__(0, optchunk(e, 0)[1][0] ^ 1))
@@ -297,5 +306,11 @@ def run(ctx):
         e = tr["events"][m["l"] - 1]
         return "%s ops=%s" % (e["t"], json.dumps(e["ops"])[:300])
     trace.validate(ctx, "Trace_RVOptions", traces, "c11_opts", canaries=cans, env={"RV_SPECDATA": path}, where=where)
+    # options inside the composed workspace model (RVSystem, focus "options": the plain modules are MetaModules with two one-bit
+    # options): only an option assignment changes an option - attach, connect, save+load of the project, a failed load elsewhere
+    # and Module.clone() keep them; simulated behaviours replayed without, explored transitions with state injection
+    from .. import system
+    system.simulate_and_replay(ctx, 120 if ctx.quick else 3000, 12 if ctx.quick else 18, nm=5, np_=1, focus="options")
+    system.graph_replay(ctx, ctx.quick, emitk=8 if ctx.quick else 1, focus="options")
     ctx.cov["traces_validated_against_impl"] = len(events)
     ctx.exhaustive = False
